@@ -96,7 +96,7 @@ async def drive(tier: str, seed: int, corpus: E.Corpus, info: dict[str, Any], *,
     quick = tier == "quick"
     rnd = random.Random(seed + 1400)
     seeds = range(0, 2) if small else (range(0, 3) if quick else range(0, 10))
-    counts = {"direct": 0, "client": 0, "tcp": 0}
+    counts = {"direct": 0, "client": 0, "tcp": 0, "run": 0}
     models = []
     for params in (("mandatory", "dense") if small else E.PARAMS):
         for sd in (range(0, 1) if small else seeds):
@@ -202,6 +202,30 @@ def drive_client_and_tcp(tier: str, seed: int, corpus: E.Corpus, info: dict[str,
             steps = vloop.run(tcp_part())
             counts["tcp"] += len(steps)
             corpus.add(m=mi, B=E.ALL, mode="A", steps=steps, meta=dict(meta, origin="tcp"))
+
+        # ---- (4) the server started the way `gallia script vecu` starts it: UnixUDSServerTransport.run() on a real
+        # socket, real client transport, real event loop; requests of every size class up to the 4095 byte maximum
+        import shutil
+        import tempfile
+
+        tmpd = tempfile.mkdtemp(prefix="c14-")
+        try:
+            s.state = type(s.state)()
+            sizes = [1, 2, 3, 255, 2047, 2048, 2049, 3000, 4095] if mi_ < 2 or not quick else [3, 2049, 4095]
+            pdus_r = [bytes([0x3E, 0x00])]
+            for n in sizes:
+                pdus_r += [(bytes([0x2E, 0xF1, 0x90]) + bytes((i * 7 + n) & 0xFF for i in range(n)))[:max(n, 1)],
+                           bytes([0x3E, 0x00])]
+            unpatched = srv.time
+            srv.time = time.time  # real event loop: real clock (the constant harness clock is for the other paths)
+            try:
+                steps = asyncio.run(K.RunLoop(s, f"{tmpd}/vecu.sock").history(pdus_r))
+            finally:
+                srv.time = unpatched
+            counts["run"] = counts.get("run", 0) + len(steps)
+            corpus.add(m=mi, B=E.ALL, mode="A", steps=steps, meta=dict(meta, origin="run"))
+        finally:
+            shutil.rmtree(tmpd, ignore_errors=True)
 
 
 def collect(corpus: E.Corpus, parallel: int = 6) -> tuple[dict[int, tuple[str, list[tuple[int, str]], int]], dict[str, dict[str, Any]]]:
